@@ -120,6 +120,12 @@ func init() {
 		mirrorOps[op] = "gen." + op
 		execs["gen."+op] = func(a []string) string { return execs[op](a) }
 	}
+	// pkg/bip39 (stage 12): EntropyToMnemonic / MnemonicToEntropy answered by the generated code, same reply format
+	for _, op := range []string{"bip39.enc", "bip39.dec"} {
+		op := op
+		mirrorOps[op] = "gen." + op
+		execs["gen."+op] = func(a []string) string { return execs[op](a) }
+	}
 	// pkg/bech32/address (stage 11): ParseBech32 / Bech32 answered by the generated code, same reply format
 	for _, op := range []string{"addr.parse", "addr.enc"} {
 		op := op
